@@ -231,6 +231,10 @@ def obligations(tier):
         out.append((f"lit:{k}", {"leg": "lit", "k": k}))
     for k in range(len(INTS)):
         out.append((f"conc:IntToStr:{k}", {"leg": "conc", "k": k}))
+    for op, (sig, _) in OPS.items():
+        if "i" in sig:
+            for name, w in (("zero", 0), ("top-bit", 1 << 55), ("all-ones", (1 << 56) - 1), ("below-top", (1 << 55) - 1), ("bit32", 1 << 24)):
+                out.append((f"z3:{op}:window-{name}", {"leg": "z3", "op": op, "window": w}))
     out.append(("lemma:references", {"leg": "lemma", "L": L + 1}))
     return out
 
@@ -352,6 +356,11 @@ def run_z3(oid, p, tier):
     s.set("timeout", 20000 if tier == "quick" else 120000)
     for v in zS:
         s.add(z3.Length(v) <= 3)
+    if p.get("window") is not None:
+        # index / integer operands in a window of 2**8 values around a boundary of the 64-bit range (bv2int on a free 64-bit operand is
+        # often 'unknown'; inside a window Z3 decides it): the high 56 bits are fixed, the low 8 are free
+        for v in zI:
+            s.add(z3.Extract(63, 8, v) == z3.BitVecVal(p["window"], 56))
     r = s.check(got != want)
     if r == z3.unsat:
         return res
